@@ -67,7 +67,9 @@ def run(ctx, rep):
             ps = [p for p in cm.params_of(f) if f.locals[p]["t"].replace("'_ ", "") == "&[u8]"]
             if len(ps) == 1:
                 n += cm.accepts_min_len(rep, prog, f, ps[0], 64, "COMBINED", path.split("::")[-1])
-    rep.floor("combined-mode openers (Ok exits)", n, 1)
+    for f in cm.find_method(prog, "sign::SignedMessage", "from_bytes"):        # the object API's combined-mode parser
+        n += cm.accepts_min_len(rep, prog, f, 1, 64, "COMBINED", "SignedMessage::from_bytes")
+    rep.floor("combined-mode openers (Ok exits)", n, 2)
     _nw = cm.read_after_wipe(rep, ctx.prog("full"), ("classic::crypto_sign", "sign::"))
     rep.note("WIPE-ORDER: %d wipe(s) of local buffers checked in the signing code" % _nw)
 
